@@ -11,7 +11,7 @@ import (
 
 // Accessors injected by the verification harness through `go build -overlay` (never committed to the repository).
 
-// XVSchedJobKeys returns a copy of the context's jobKeys as reference -> key name. The map is owned by the
+// XVSchedJobKeys returns a copy of the context's jobKeys as reference -> key (group NUL name). The map is owned by the
 // actor's goroutine: call it from a handler of that actor, or after the actor has terminated.
 func XVSchedJobKeys(c vivid.ActorContext) map[string]string {
 	ctx, ok := c.(*Context)
@@ -20,7 +20,7 @@ func XVSchedJobKeys(c vivid.ActorContext) map[string]string {
 	}
 	out := make(map[string]string, len(ctx.scheduler.jobKeys))
 	for ref, k := range ctx.scheduler.jobKeys {
-		out[ref] = k.Name()
+		out[ref] = k.Group() + "\x00" + k.Name()
 	}
 	return out
 }
@@ -36,5 +36,5 @@ func XVSchedRefs(c vivid.ActorContext) []string {
 	return out
 }
 
-// XVQuartzKeys returns the names of all jobs queued in the system's quartz scheduler, sorted.
-func XVQuartzKeys(s *System) []string { return scheduler.XVKeys(s.scheduler) }
+// XVQuartzKeys returns (group, name) of all jobs queued in the system's quartz scheduler, sorted.
+func XVQuartzKeys(s *System) [][2]string { return scheduler.XVKeys(s.scheduler) }
